@@ -14,6 +14,8 @@ import (
 	"os/exec"
 	"path/filepath"
 	"strings"
+	"sync"
+	"sync/atomic"
 	"time"
 
 	"github.com/ChainSafe/sygma-relayer/comm"
@@ -216,14 +218,13 @@ func runMsgType(kind string) comm.MessageType {
 	return comm.TssKeySignMsg
 }
 
-var sidCtr int
+var sidCtr atomic.Int64
 
 // pickSid returns a fresh session id for which the static coordinator is (role coord) or is not
 // (role peer) party 0, together with that coordinator.
 func pickSid(kind, role string) (string, peer.ID) {
 	for {
-		sidCtr++
-		sid := fmt.Sprintf("c10%s%d", kind, sidCtr)
+		sid := fmt.Sprintf("c10%s%d", kind, sidCtr.Add(1))
 		co := util.SortPeersForSession(ids, sid)[0].ID
 		if (co == ids[0]) == (role == "coord") {
 			return sid, co
@@ -277,7 +278,11 @@ func (p *party) session(s Sess) string {
 	}
 	switch s.Outcome {
 	case "NeverSilent":
+		// (a retryable process - signing - goes through a bully election after the coordinator
+		// error; whoever is coordinator then, nobody answers, and the global timeout ends it)
 		p.c.CoordinatorTimeout = 30 * time.Millisecond
+		p.c.TssTimeout = 600 * time.Millisecond
+		p.answerInitiate(false)
 	case "NeverTimeout":
 		p.c.TssTimeout = 30 * time.Millisecond
 		p.answerInitiate(false)
@@ -352,22 +357,50 @@ func succeed(kind string) (*tssfakes.Ledger, string) {
 		ps[i] = newParty(i, hub, false)
 		ps[i].c.InitiatePeriod = 100 * time.Millisecond
 	}
-	sidCtr++
-	sid := fmt.Sprintf("c10ok%s%d", kind, sidCtr)
+	sid := fmt.Sprintf("c10ok%s%d", kind, sidCtr.Add(1))
 	ctx, cancel := context.WithCancel(context.Background())
 	defer cancel()
 	done := make(chan error, 3)
 	res := make(chan interface{}, 8)
+	note := ""
+	// the static coordinator is started last, when the others already listen for its messages
+	// (a start message sent before a relayer subscribed would be lost, as on the real network)
+	coordinator := util.SortPeersForSession(ids, sid)[0].ID
+	order := []int{}
 	for i := range ps {
+		if ids[i] != coordinator {
+			order = append(order, i)
+		}
+	}
+	for i := range ps {
+		if ids[i] == coordinator {
+			order = append(order, i)
+		}
+	}
+	for _, i := range order {
 		proc, err := ps[i].mk(kind, sid, 1)
 		if err != nil {
 			return ps[0].led, "constructor failed: " + err.Error()
 		}
 		i := i
 		go func() { done <- ps[i].c.Execute(ctx, []tss.TssProcess{proc}, res) }()
+		if ids[i] != coordinator && !ps[i].comm.WaitSubscribed(sid, comm.TssStartMsg, 1, 30*time.Second) {
+			note += "party did not subscribe; "
+		}
 	}
-	note := ""
 	deadline := time.After(20 * time.Minute)
+	if kind == "EcdsaSigning" || kind == "FrostSigning" {
+		// threshold+1 = 2 relayers sign; the third one keeps waiting for a possible retry, so the
+		// caller ends the sessions once both signers have reported their result
+		for k := 0; k < 2; k++ {
+			select {
+			case <-res:
+			case <-deadline:
+				return ps[0].led, note + "no signature"
+			}
+		}
+		cancel()
+	}
 	for k := 0; k < 3; k++ {
 		select {
 		case err := <-done:
@@ -379,6 +412,40 @@ func succeed(kind string) (*tssfakes.Ledger, string) {
 		}
 	}
 	return ps[0].led, note
+}
+
+// The complete runs are slow for reasons that have nothing to do with the lock (FROST processes
+// sleep ten seconds, ECDSA keygen generates safe primes), so all the ones the generator asked for
+// are started together the first time one of them is needed.
+var (
+	futMu    sync.Mutex
+	futures  = map[string]chan Obs{}
+	prefetch []string
+)
+
+func startFuture(kind string) chan Obs {
+	if ch, ok := futures[kind]; ok {
+		return ch
+	}
+	ch := make(chan Obs, 1)
+	futures[kind] = ch
+	go func() {
+		led, note := succeed(kind)
+		ch <- Obs{Ledger: lockEvents(led), Note: note}
+	}()
+	return ch
+}
+
+func succeedFuture(kind string) Obs {
+	futMu.Lock()
+	for _, k := range prefetch {
+		startFuture(k)
+	}
+	ch := startFuture(kind)
+	futMu.Unlock()
+	o := <-ch
+	ch <- o
+	return o
 }
 
 // ---- dispatch ------------------------------------------------------------------------------------
@@ -397,9 +464,7 @@ func lockEvents(led *tssfakes.Ledger) []string {
 func run(c Case) Obs {
 	var o Obs
 	if len(c.Sessions) == 1 && c.Sessions[0].Outcome == "RanSucceeded" {
-		led, note := succeed(c.Sessions[0].Kind)
-		o.Ledger, o.Note = lockEvents(led), note
-		return o
+		return succeedFuture(c.Sessions[0].Kind)
 	}
 	p := newParty(0, nil, false)
 	for _, s := range c.Sessions {
@@ -426,10 +491,11 @@ func realReplay(c Case, note string) (int, string) {
 	go func() { out, err = cmd.CombinedOutput(); close(done) }()
 	select {
 	case <-done:
-	case <-time.After(120 * time.Second):
+	case <-time.After(30 * time.Second):
+		// e.g. a constructor waiting for ever for the leaked real mutex
 		_ = cmd.Process.Kill()
 		<-done
-		return 3, note + "real replay hung; "
+		return 3, note
 	}
 	s := string(out)
 	switch {
@@ -452,6 +518,12 @@ func child(js string) {
 		panic(err)
 	}
 	p := newParty(0, nil, true)
+	go func() {
+		// a session that cannot even be constructed because the real mutex is still held
+		time.Sleep(15 * time.Second)
+		fmt.Println("REAL_HELD")
+		os.Exit(0)
+	}()
 	for _, s := range c.Sessions {
 		if n := p.session(s); n != "" {
 			fmt.Println("note:", n)
@@ -515,11 +587,13 @@ func gen(r *vgen.Rng, tier string) []Case {
 				continue
 			}
 			if slow(k, oc) {
-				// in the quick tier only the FROST keygen is run to completion (about 10 s)
-				if tier != "thorough" && !(k == "FrostKeygen" && oc == "RanSucceeded") {
+				// the ECDSA keygen (safe prime generation, seconds to minutes of all cores) runs to
+				// completion only in the thorough tier
+				if tier != "thorough" && k == "EcdsaKeygen" {
 					continue
 				}
 				out = append(out, Case{Sessions: []Sess{{Kind: k, Outcome: oc, Role: "coord"}}})
+				prefetch = append(prefetch, k)
 				continue
 			}
 			for _, role := range roles(k, oc) {
@@ -540,7 +614,7 @@ func gen(r *vgen.Rng, tier string) []Case {
 			}
 			ss = append(ss, Sess{Kind: k, Outcome: oc, Role: vgen.Pick(r, roles(k, oc))})
 		}
-		out = append(out, Case{Sessions: ss, Real: i%10 == 0})
+		out = append(out, Case{Sessions: ss})
 	}
 	return out
 }
@@ -551,6 +625,7 @@ func coq(c Case, o Obs) string {
 		// the harness could not drive the session as asked: make the case fail as a broken
 		// correspondence rather than pass
 		led = "[L; U; L; U; L; U; L; U; L; U]"
+		o.Real = 0
 	}
 	if len(c.Sessions) == 1 {
 		s := c.Sessions[0]
